@@ -38,9 +38,7 @@ Next == Serialize \/ Deserialize
 Spec == Init /\ [][Next]_vars
 
 (* ---- the law, stated without the fold ---- *)
-ValuesOf(n) == LET idx == {i \in DOMAIN wire : wire[i].n = n}
-                   ord == CHOOSE f \in [1..Cardinality(idx) -> idx] : \A a, b \in 1..Cardinality(idx) : a < b => f[a] < f[b]
-               IN  [j \in 1..Cardinality(idx) |-> wire[ord[j]].x]
+ValuesOf(n) == LET sel == SelectSeq(wire, LAMBDA p : p.n = n) IN [j \in DOMAIN sel |-> sel[j].x]
 FormLaw == phase = 2 =>
     /\ \A i, j \in DOMAIN back : i # j => back[i].n # back[j].n                       \* one entry per name
     /\ {back[i].n : i \in DOMAIN back} = {wire[i].n : i \in DOMAIN wire}               \* exactly the names that have a value
